@@ -2267,8 +2267,14 @@ static int dual_phaseI_step (
 		}
 		else if (fi.pstatus == PRIMAL_FEASIBLE)
 		{
-			it->solstatus = ILL_LP_SOLVED;
-			it->nextstep = SIMPLEX_TERMINATE;
+			/* phase I proved that the dual has no feasible point: the problem is
+			 * infeasible or unbounded, and only the primal simplex can tell which
+			 * (ending here reported INFEASIBLE for unbounded problems) */
+			it->algorithm = PRIMAL_SIMPLEX;
+			it->nextstep = SIMPLEX_RESUME;
+			it->resumeid = SIMPLEX_RESUME_NUMER;
+			it->n_restart++;
+			ILL_CLEANUP;
 		}
 		it->newphase = SIMPLEX_PHASE_NEW;
 		ILL_CLEANUP;
